@@ -341,6 +341,17 @@ func (st *ex4State) op(kind string, fn func(o *ex4Op)) *ex4Op {
 }
 
 func (st *ex4State) workload(cl *nclient4.Client, w int) {
+	// one client object, one or two acquisitions in a row (an application that starts over:
+	// whatever the first round left behind in the client must not leak into the second)
+	st.round(cl, w)
+	if st.tape.Coin(1, 4) {
+		st.s.Probe("second-acquisition-on-the-same-client")
+		sleep(pick(st.tape, 0, ms(1), st.T), siteEx4Main)
+		st.round(cl, st.tape.Choose(2))
+	}
+}
+
+func (st *ex4State) round(cl *nclient4.Client, w int) {
 	t := st.tape
 	ctx := context.Background()
 	var lease *nclient4.Lease
